@@ -311,6 +311,12 @@ def r4(prog, run):
                         copy_ok = True
             if not copy_ok:
                 problems.append('the renumbering loop does not iterate a saved copy of the map')
+        # every saved / unacknowledged entry is handled: the loops that re-register or resend have no early exit
+        early = _loop_early_exits(fn, lambda i, n: (n['k'] == 'call' and (fn.cname(n).endswith('::sendData')
+                                                                            or (_obj_field(fn, n) == UNACK and (fn.sym(n) or {}).get('name') == 'insert'))))
+        for site in early:
+            problems.append('the loop that re-registers / resends the unacknowledged stanzas can be left before the last entry (%s): the remaining stanzas are %s'
+                            % (fn.loc(site), 'dropped from the map and never resent or reported' if reset else 'not resent on this session'))
         if problems:
             run.violation(rid, 'enableStreamManagement#reset=%s' % reset, fn.loc(), '; '.join(sorted(set(problems))))
         else:
@@ -325,6 +331,26 @@ def r4(prog, run):
         run.ok(rid, osc.loc(), 'm_enabled set on enable, cleared when the session closes (later sends are reported immediately)')
     else:
         run.violation(rid, 'StreamAckManager#m_enabled-lifecycle', osc.loc(), 'm_enabled is not set on enable / cleared on session close')
+
+
+def _loop_early_exits(fn, interesting):
+    """first node of every block inside a range-for body (whose body contains an interesting node) that leaves the loop other than through its head"""
+    out = []
+    dom = fn.dom()
+    for b in fn.blocks.values():
+        t = b.get('term')
+        if not t or t.get('k') != 'rangefor' or b['succs'][0] is None:
+            continue
+        entry = b['succs'][0]
+        body = {x for x in fn.blocks if ('b', entry) in dom.get(('b', x), set())}
+        if not any(interesting(e, fn.nodes[e]) for x in body for e in fn.blocks[x]['elems']):
+            continue
+        for x in sorted(body):
+            for s_ in fn.blocks[x]['succs']:
+                if s_ is not None and s_ not in body and s_ != b['id']:
+                    elems = fn.blocks[x]['elems']
+                    out.append(elems[-1] if elems else t['range'])
+    return out
 
 
 def r5(prog, run):
